@@ -523,8 +523,12 @@ class Unit:
                     for am in getattr(c, "awaits_matching", []):
                         if re.search(am.key, head):
                             cls += [(cl, "effect") for cl in am.sections.get("cancel_safe", [])]
+                    # callee awaited at this point (last method/function name before the marker): part of the obligation name, so
+                    # that a known finding about one awaited call does not cover a different call at the same ordinal
+                    cm = re.findall(r"([A-Za-z_][A-Za-z0-9_]*)\s*\(", m[st[0][0]:p])
+                    callee = cm[-1] if cm else "expr"
                     if cls:
-                        per_stmt.setdefault(st[0][0], []).append((idx, cls))
+                        per_stmt.setdefault(st[0][0], []).append(("%d@%s" % (idx, callee), cls))
                 for k in awaits:
                     if k != "all" and k > len(marks):
                         raise LostAnchor("%s: await point #%d of %s not found" % (it.file, k, it.name))
@@ -568,7 +572,7 @@ class Unit:
                             segs.append(("t", "    assert(" + cl.text.strip() + ");\n"))
                         else:
                             segs.append(("c", "    assert(" + cl.text.strip() + ");",
-                                         dict(obl=dict(id="%s::%s.await%d#%s" % (self.name, it.name, idx, cl.label), fn=it.name,
+                                         dict(obl=dict(id="%s::%s.await%s#%s" % (self.name, it.name, idx, cl.label), fn=it.name,
                                                        kind="cancel_point", label=cl.label, props=cl.props or props, text=cl.text.strip()))))
                 segs.append(("t", "}\n"))
                 pos = p
